@@ -195,12 +195,14 @@ class SubReport(Report):
         raise AnalysisError("SubReport.finish() must not be called")
 
 
-def merge_sub(rep, sub, rule, label, only_rules=None):
+def merge_sub(rep, sub, rule, label, only_rules=None, only_constructs=None):
     """Restate sub's obligations in rep under `rule`: each failing obligation individually (same construct, detail prefixed
     with the originating rule), the passing ones as one aggregated obligation per (originating rule, construct)."""
     agg = {}
     for o in sub.obligations:
         if only_rules is not None and o["rule"] not in only_rules:
+            continue
+        if only_constructs is not None and not only_constructs(o["construct"]):
             continue
         if o["ok"]:
             k = (o["rule"], o["construct"])
